@@ -3,6 +3,7 @@
 set -e
 cd "$(dirname "$0")"
 export PYTHONPATH=/repo:/verif/tools PYTHONHASHSEED=0 PYTHONDONTWRITEBYTECODE=1
+/venv/bin/python tools/regen.py
 /venv/bin/python -c "
 import sys; sys.path.insert(0,'tools')
 from vlib import core; core.ensure_makefile()"
